@@ -1,5 +1,9 @@
 from ..framework import Spec
-from ..ties_sys import layout_tie, layout_isa_tie, layout_oracle
+from ..ties_sys import layout_tie, layout_isa_tie, layout_oracle, layout_scenario_tie
+from ..scenarios import gen_label_scenario
 
 SPEC = Spec(pid='C18', coq_needs=['Base', 'Program', 'Match', 'ProgramIsa', 'Properties/C18'],
-            ties=[layout_tie(), layout_isa_tie()], oracles=[layout_oracle()])
+            ties=[layout_tie(), layout_isa_tie(),
+                  # a label in front of the statement it labels vs on its own line: which region the statement belongs to
+                  layout_scenario_tie('label_lines', gen_label_scenario, 150, 2500)],
+            oracles=[layout_oracle()])
